@@ -241,8 +241,37 @@ fn front_end(
                     .iter()
                     .any(|(j, n2)| (*j != i || n2 != n) && (n2 == n || wac_types::are_semver_compatible(n, n2)) && !(*j == i && n2 == n))
         });
+        // a registered package one of whose instance imports exports a nested instance with an
+        // identifier on the semver track of another interface name in play (the aggregator,
+        // at encode time, merges such interfaces into one that contains itself): the second
+        // input-shape tag
+        let cyclic = {
+            let mut top: Vec<String> = Vec::new();
+            let mut nested: Vec<String> = Vec::new();
+            for p in g.packages() {
+                let world = &g.types()[p.ty()];
+                for (n, k) in &world.imports {
+                    top.push(n.clone());
+                    if let wac_types::ItemKind::Instance(id) = k {
+                        for (_, k2) in &g.types()[*id].exports {
+                            if let wac_types::ItemKind::Instance(inner) = k2 {
+                                if let Some(iid) = &g.types()[*inner].id {
+                                    nested.push(iid.clone());
+                                }
+                            }
+                        }
+                    }
+                }
+            }
+            nested.iter().enumerate().any(|(i, n)| {
+                top.iter().any(|t| t == n || wac_types::are_semver_compatible(t, n))
+                    || nested.iter().enumerate().any(|(j, m)| j != i && (m == n || wac_types::are_semver_compatible(m, n)))
+            })
+        };
         if shadows {
             format!("{tag}:explicit-import-named-like-implicit-interface")
+        } else if cyclic {
+            format!("{tag}:merged-interface-contains-itself")
         } else {
             tag.to_string()
         }
@@ -390,6 +419,7 @@ pub const SHAPES: &[&str] = &[
     "empty-delimiters",
     "odd-package",
     "flat-alias-chain",
+    "track-nest-order",
 ];
 
 /// Valid but hand-shaped components (no toolchain emits them) with the document that
@@ -619,6 +649,24 @@ fn shape(t: &mut Tape, force_odd: Option<usize>) -> (String, String, Pkgs) {
                 doc.to_string(),
                 vec![("ns:a".into(), None, Arc::new(bytes))],
             );
+        }
+        "track-nest-order" => {
+            // two library components whose imports nest instances on one semver track,
+            // instantiated in either order (the aggregator merges them differently)
+            let names = if t.chance(1, 2) {
+                ["odd:track-nest-b", "odd:track-nest-a"]
+            } else {
+                ["odd:track-nest-a", *t.pick(&["odd:track-nest-b", "odd:track-nest-c"])]
+            };
+            let p: Pkgs = library()
+                .iter()
+                .filter(|p| names.contains(&p.name))
+                .map(|p| (p.name.to_string(), None, Arc::new(p.bytes.clone())))
+                .collect();
+            (
+                format!("{head}let i1 = new {} {{ ... }};\nlet i2 = new {} {{ ... }};\n", names[0], names[1]),
+                p,
+            )
         }
         "flat-alias-chain" => {
             // a long chain of aliases at syntactic depth 2 (the parser's nesting limit does
